@@ -234,8 +234,8 @@ class ProvXMLSerializer(Serializer):
         else:
             xml_doc = etree.parse(stream).getroot()
 
-        # Remove all comments.
-        for c in xml_doc.xpath("//comment()"):
+        # Remove all comments and processing instructions.
+        for c in xml_doc.xpath("//comment() | //processing-instruction()"):
             p = c.getparent()
             if p is None:
                 # outside the document element
